@@ -1,21 +1,27 @@
 /-
-  C13 — the number codec of `export_xml` / `GKFparser` instantiated with the real printer:
+  C13 — the number codec of `export_xml` / `GKFparser` instantiated with the real printers:
     `to_xmlstr(val, prec)` = `ostr << std::setprecision(prec) << std::defaultfloat << val`   (`%.{prec}g`: `fmtGen`)
     `CoreParser::toDouble` = `IsFloat` + `atof`                                             (`rdDecimal`)
     `to_xmlstr(adj_covband())` / `toInteger`                                                (`fmtInt` / `rdInt`)
-  over ℚ.  `export_xml` uses prec = 8, 16 and 17 (default) by site; the network model has ONE `fmt`, so the precision
-  `p` is a parameter.  Over ℚ the conversions `latitude()*200/M_PI`, `*0.324`, `*(1/0.324)` are exactly invertible
+    `str_val = GNU_gama::gon2deg(m, 0, 4)` (observation.cpp, `angles="360"`)                 (`Angles.gon2deg · 0 4`, C18's model)
+    `deg2gon(sm, dm)` tried before `toDouble` (GKFparser `process_*` of the angular kinds)  (`Angles.deg2gon`, C18's model)
+  over ℚ.  `export_xml` uses prec = 8, 16 and 17 (default) by site, and `updated_xml_covmat` prints the `<cov-mat>` elements
+  with `scientific`, `precision(16)` (`%.16e`, `Dec.fmtSci 16`: same laws, `rd_fmtSci` / `fmtSci_roundSig`, NOT instantiated
+  here); the network model has ONE `fmt` for all sites, so the precision `p` is a parameter and the statements are about a
+  `%.{p}g` printer at every site.  Over ℚ the conversions `latitude()*200/M_PI`, `*0.324`, `*(1/0.324)` are exactly invertible
   (they are not for IEEE doubles: see the report).
 
-  The sexagesimal second printer (`gon2deg(m, 0, 4)` / `deg2gon`) is NOT instantiated with C18's formatter here: the
-  fields `fmtDeg` / `rdDeg` hold a STAND-IN (the letter `d` followed by the `%.{pd}g` text) that satisfies the law for
-  every `x`.  The printer theorems of Props/C13Codec.lean are therefore about the real printer for documents in gons
-  (`angles="400"`, the default), where `fmtDeg` / `rdDeg` are not called on a value; for `angles="360"` they are about
-  the stand-in.  Real sexagesimal text: `C13_sexagesimal_read_back` (Props/C13.lean) gives `rdDeg (fmtDeg x) = some (qd x)`
-  with `|qd x − x| ≤ ½·10⁻⁴″` for `0 ≤ x`; C18's formatter prints no sign, so the law for all `x` that `Codec.Printer`
-  demands is false for it.
+  Round 6: the sexagesimal second printer is C18's formatter / reader itself (no stand-in any more).  It prints no sign
+  (`sign = 0`) and needs `int(gon·0.9)`, so its two laws hold on the domain `DegDom g := 0 ≤ g ∧ g·0.9 < 2³¹−1` only
+  (gama keeps angles in [0, 400) gon): `realCodec_printerOn : (realCodec m p sd).PrinterOn DegDom (roundSig …) degQ`.
+    * `rdDeg (fmtDeg g) = some (degQ g)`: C18's `deg2gon_gon2deg_string` (through `sexagesimal_read_back`);
+    * `fmtDeg (degQ g) = fmtDeg g`: `gon2deg_degQ` (Lemmas/ExportDegrees.lean: the value read back is the angle the
+      printed fields denote, and splitting it again gives those fields);
+    * `rdDeg (fmt x) = none` — a `%g` numeral is never mistaken for a sexagesimal text, although the parser tries
+      `deg2gon` first: every text `deg2gon` accepts has a `-` right after a digit, no `%g` text has (`digitDash`).
 -/
 import Gama.Lemmas.ExportQuant
+import Gama.Lemmas.ExportDegrees
 import Gama.Lemmas.DecimalCodecSig
 namespace Gama.Export
 open Gama.Dec
@@ -23,21 +29,19 @@ open Gama.Dec
 /-- `M_PI`, exactly (0x400921fb54442d18) -/
 def piQ : ℚ := 884279719003555 / 281474976710656
 
-def fmtDegStandIn (m : RMode) (pd : Nat) (x : ℚ) : String := String.ofList ('d' :: fmtGenL m pd x)
+/-- `str_val = GNU_gama::gon2deg(m, 0, 4)` (the formatter of the tree, C18's model; never `none` over ℚ) -/
+def fmtDegReal (g : ℚ) : String := (Angles.gon2deg g 0 4).getD ""
 
-def rdDegStandIn (s : String) : Option ℚ :=
-  match s.toList with
-  | 'd' :: r => rdDecimalL r
-  | _ => none
+/-- `deg2gon(sm, dm)` (C18's model) -/
+def rdDegReal (s : String) : Option ℚ := Angles.deg2gon s
 
-attribute [irreducible] fmtDegStandIn rdDegStandIn
-
-/-- the codec of `export_xml` with `to_xmlstr(·, p)`; `sd` = `apriori_m_0() * sqrt(dist)` (not rational: a parameter) -/
-def realCodec (m : RMode) (p pd : Nat) (sd : ℚ → ℚ → ℚ) : Codec ℚ :=
+/-- the codec of `export_xml` with `to_xmlstr(·, p)` and the sexagesimal text `gon2deg(·, 0, 4)` / `deg2gon`;
+    `sd` = `apriori_m_0() * sqrt(dist)` (not rational: a parameter) -/
+def realCodec (m : RMode) (p : Nat) (sd : ℚ → ℚ → ℚ) : Codec ℚ :=
   { fmt := fmtGen m p, rd := rdDecimal, zero := 0, isZero := fun x => decide (x = 0),
     neg := fun x => -x, fmtI := fmtInt, rdI := rdInt,
     latOut := fun x => x * 200 / piQ, latIn := fun x => x * piQ / 200,
-    fmtDeg := fmtDegStandIn m pd, rdDeg := rdDegStandIn,
+    fmtDeg := fmtDegReal, rdDeg := rdDegReal,
     toSec := fun x => x * (81 / 250), fromSec := fun x => x * (250 / 81),
     pos := fun x => decide (0 < x), lt1 := fun x => decide (x < 1), ellKnown := fun e => e == "wgs84", sdDist := sd }
 
@@ -50,30 +54,183 @@ theorem fmtGenL_roundSig (m : RMode) (p : Nat) (x : ℚ) : fmtGenL m p (roundSig
   unfold fmtGenL roundSig
   rw [sigD_stable m m _ (sigDigits_pos p) x]
 
-theorem rdDegStandIn_fmtGen (m : RMode) (p : Nat) (x : ℚ) : rdDegStandIn (fmtGen m p x) = none := by
-  unfold rdDegStandIn fmtGen
-  rw [String.toList_ofList]
-  obtain ⟨c, r, h, hc⟩ := fmtGenL_head m p x
-  rw [h]
-  have hne : c ≠ 'd' := by
-    rintro rfl
-    rcases hc with hc | hc
-    · exact absurd hc (by decide)
-    · exact absurd hc (by decide)
+/-! ## a decimal numeral is never read as a sexagesimal text -/
+
+/-- is there a `-` immediately after a decimal digit?  (`prev`: the previous character was a digit.)  Every text
+    `deg2gon` accepts has one (`DDD-MM-SS`), no text of `%g` has: its `-` stand in front or after the `e`. -/
+def digitDash : Bool → List Char → Bool
+  | _, [] => false
+  | prev, c :: cs => (prev && c == '-') || digitDash (Lit.isDigit c) cs
+
+def endDigit : Bool → List Char → Bool
+  | b, [] => b
+  | _, c :: cs => endDigit (Lit.isDigit c) cs
+
+theorem digitDash_append (b : Bool) (l r : List Char) :
+    digitDash b (l ++ r) = (digitDash b l || digitDash (endDigit b l) r) := by
+  induction l generalizing b with
+  | nil => simp [digitDash, endDigit]
+  | cons c cs ih => simp [digitDash, endDigit, ih, Bool.or_assoc]
+
+theorem digitDash_mono (b : Bool) (l : List Char) (h : digitDash false l = true) : digitDash b l = true := by
+  cases l with
+  | nil => simp [digitDash] at h
+  | cons c cs => simp only [digitDash, Bool.false_and, Bool.false_or] at h; simp [digitDash, h]
+
+theorem digitDash_infix {l m : List Char} (hi : l <:+: m) (h : digitDash false l = true) : digitDash false m = true := by
+  obtain ⟨s, t, rfl⟩ := hi
+  rw [digitDash_append, digitDash_append, digitDash_mono _ l h]
+  simp
+
+theorem digit_ne_dash {c : Char} (h : Lit.isDigit c = true) : (c == '-') = false := by
+  cases hc : c == '-' with
+  | false => rfl
+  | true => rw [beq_iff_eq.mp hc] at h; exact absurd h (by decide)
+
+theorem digitDash_allDigit (b : Bool) (l : List Char) (h : Lit.AllDigit l) : digitDash b l = false := by
+  induction l generalizing b with
+  | nil => rfl
+  | cons c cs ih =>
+    have hc := h c List.mem_cons_self
+    simp only [digitDash, digit_ne_dash hc, Bool.and_false, Bool.false_or]
+    exact ih _ (fun x hx => h x (List.mem_cons_of_mem _ hx))
+
+theorem endDigit_allDigit (b : Bool) (l : List Char) (h : Lit.AllDigit l) (hne : l ≠ []) : endDigit b l = true := by
+  induction l generalizing b with
+  | nil => exact absurd rfl hne
+  | cons c cs ih =>
+    have hc := h c List.mem_cons_self
+    cases cs with
+    | nil => simp [endDigit, hc]
+    | cons d ds =>
+      show endDigit (Lit.isDigit c) (d :: ds) = true
+      exact ih _ (fun x hx => h x (List.mem_cons_of_mem _ hx)) (by simp)
+
+/-- digits followed by `-`: what every sexagesimal text contains -/
+theorem digitDash_digits_dash (l y : List Char) (h : Lit.AllDigit l) (hne : l ≠ []) : digitDash false (l ++ '-' :: y) = true := by
+  rw [digitDash_append, endDigit_allDigit false l h hne]
+  simp [digitDash]
+
+theorem digitDash_dotFrac (b : Bool) (F : List Char) (h : Lit.AllDigit F) : digitDash b (dotFrac F) = false := by
+  unfold dotFrac
   split
-  · rename_i heq; injection heq with h1 _; exact absurd h1 hne
   · rfl
+  · simp only [digitDash]
+    rw [digitDash_allDigit _ F h]
+    simp
 
-theorem rdDegStandIn_fmtDeg (m : RMode) (pd : Nat) (x : ℚ) :
-    rdDegStandIn (fmtDegStandIn m pd x) = some (roundSig m (sigDigits pd) x) := by
-  unfold rdDegStandIn fmtDegStandIn
-  rw [String.toList_ofList]
-  exact rd_fmtGenL m pd x
+theorem digitDash_expText (b : Bool) (X : Int) : digitDash b (expText X) = false := by
+  unfold expText
+  simp only [digitDash]
+  rw [digitDash_allDigit _ _ (allDigit_natDigits _ _)]
+  have h1 : ('e' == '-') = false := by decide
+  have h2 : Lit.isDigit 'e' = false := by decide
+  simp [h1, h2]
 
-theorem fmtDegStandIn_q (m : RMode) (pd : Nat) (x : ℚ) :
-    fmtDegStandIn m pd (roundSig m (sigDigits pd) x) = fmtDegStandIn m pd x := by
-  unfold fmtDegStandIn
-  rw [fmtGenL_roundSig]
+/-- the general shape of the three `%g` layouts -/
+theorem digitDash_numeral (neg : Bool) (A F E : List Char) (hA : Lit.AllDigit A) (hF : Lit.AllDigit F)
+    (hE : ∀ b, digitDash b E = false) : digitDash false (signText neg ++ (A ++ (dotFrac F ++ E))) = false := by
+  have hs : digitDash false (signText neg) = false ∧ endDigit false (signText neg) = false := by
+    cases neg <;> decide
+  rw [digitDash_append, hs.1, hs.2, digitDash_append, digitDash_allDigit _ A hA, digitDash_append, digitDash_dotFrac _ F hF, hE]
+  rfl
+
+theorem digitDash_genShow (P : Nat) (d : Numeral) : digitDash false (genShow P d) = false := by
+  have hds := allDigit_natDigits P d.m
+  unfold genShow
+  split
+  · decide
+  · simp only []
+    split
+    · split
+      · have := digitDash_numeral d.neg ((natDigits P d.m).take ((d.e + ((P : Int) - 1)).toNat + 1))
+          (stripZeros ((natDigits P d.m).drop ((d.e + ((P : Int) - 1)).toNat + 1))) []
+          (allDigit_take hds _) (allDigit_stripZeros (allDigit_drop hds _)) (fun _ => rfl)
+        simpa using this
+      · have := digitDash_numeral d.neg ['0']
+          (stripZeros (List.replicate ((-(d.e + ((P : Int) - 1))).toNat - 1) '0' ++ natDigits P d.m)) []
+          (by intro c hc; simp at hc; subst hc; decide)
+          (allDigit_stripZeros (allDigit_append (allDigit_replicate_zero _) hds)) (fun _ => rfl)
+        simpa using this
+    · exact digitDash_numeral d.neg _ _ _ (allDigit_take hds 1) (allDigit_stripZeros (allDigit_drop hds 1))
+        (fun b => digitDash_expText b _)
+
+section
+open Gama.Angles Gama.Grammar Gama.Grammar.Rx
+
+theorem grammar_isDigit_eq (c : Char) : Grammar.isDigit c = Lit.isDigit c := rfl
+
+theorem body_suffix (t : List Char) : body t <:+ t := by
+  unfold body
+  split
+  · rename_i b rest
+    split
+    · have h1 : skip isSign (rest.dropWhile Grammar.isSpace) <:+ rest.dropWhile Grammar.isSpace := by
+        generalize rest.dropWhile Grammar.isSpace = y
+        cases y with
+        | nil => exact List.suffix_refl _
+        | cons c y' =>
+          show (if isSign c then y' else c :: y') <:+ c :: y'
+          split
+          · exact List.suffix_cons _ _
+          · exact List.suffix_refl _
+      exact (h1.trans (List.dropWhile_suffix _)).trans (List.suffix_cons _ _)
+    · exact List.suffix_refl _
+  · exact List.suffix_refl _
+
+theorem trimWs_infix (l : List Char) : trimWs l <:+: l := by
+  rw [trimWs_eq]
+  unfold dropTrailing
+  have h1 : ((l.dropWhile Grammar.isSpace).reverse.dropWhile Grammar.isSpace).reverse <+: l.dropWhile Grammar.isSpace := by
+    rw [← List.reverse_suffix, List.reverse_reverse]
+    exact List.dropWhile_suffix _
+  exact h1.isInfix.trans (List.dropWhile_suffix _).isInfix
+
+/-- every text `deg2gon` accepts contains a `-` right after a digit -/
+theorem parseDms_digitDash (s : String) (h : (parseDms s).isSome = true) : digitDash false s.toList = true := by
+  rw [parseDms_isSome] at h
+  simp only [] at h
+  obtain ⟨hne, -, hmin⟩ := h
+  rw [parseMin_isSome] at hmin
+  obtain ⟨y, hy, -⟩ := hmin
+  have hb : body (trimWs s.toList) = degF (trimWs s.toList) ++ '-' :: y := by
+    rw [← hy]; unfold degF; exact (List.takeWhile_append_dropWhile).symm
+  have hd : Lit.AllDigit (degF (trimWs s.toList)) := by
+    intro c hc
+    unfold degF at hc
+    have := List.all_eq_true.mp (List.all_takeWhile (p := Grammar.isDigit) (l := body (trimWs s.toList))) c hc
+    rwa [grammar_isDigit_eq] at this
+  have h1 := digitDash_digits_dash _ y hd hne
+  rw [← hb] at h1
+  exact digitDash_infix ((body_suffix _).isInfix.trans (trimWs_infix _)) h1
+
+end
+
+/-- **a `%g` numeral is not read as a sexagesimal text** (the parser tries `deg2gon` first, then `toDouble`) -/
+theorem rdDegReal_fmtGen (m : RMode) (p : Nat) (x : ℚ) : rdDegReal (fmtGen m p x) = none := by
+  unfold rdDegReal Angles.deg2gon
+  cases h : Angles.parseDms (fmtGen m p x) with
+  | none => rfl
+  | some r =>
+    have h1 := parseDms_digitDash (fmtGen m p x) (by rw [h]; rfl)
+    unfold fmtGen at h1
+    rw [String.toList_ofList] at h1
+    unfold fmtGenL at h1
+    rw [digitDash_genShow] at h1
+    exact absurd h1 (by decide)
+
+theorem rdDegReal_fmtDegReal (g : ℚ) (hD : DegDom g) : rdDegReal (fmtDegReal g) = some (degQ g) := by
+  obtain ⟨str, h1, h2⟩ := deg2gon_gon2deg_degQ g hD
+  unfold rdDegReal fmtDegReal
+  rw [h1]
+  exact h2
+
+theorem fmtDegReal_degQ (g : ℚ) (hD : DegDom g) : fmtDegReal (degQ g) = fmtDegReal g := by
+  unfold fmtDegReal
+  rw [gon2deg_degQ g hD]
+
+-- the unifier must not evaluate string operations when it compares the fields of the codec
+attribute [irreducible] fmtDegReal rdDegReal
 
 theorem rdInt_fmtInt (i : Int) : rdInt (fmtInt i) = some i := by
   unfold rdInt fmtInt
@@ -82,9 +239,10 @@ theorem rdInt_fmtInt (i : Int) : rdInt (fmtInt i) = some i := by
 
 theorem piQ_ne : piQ ≠ 0 := by unfold piQ; norm_num
 
-/-- **the real printer satisfies the law of the printer theorems of C13**, for every precision and rounding rule -/
-theorem realCodec_printer (m : RMode) (p pd : Nat) (sd : ℚ → ℚ → ℚ) :
-    (realCodec m p pd sd).Printer (roundSig m (sigDigits p)) (roundSig m (sigDigits pd)) :=
+/-- **the real printers satisfy the law of the printer theorems of C13**, for every precision and rounding rule; the
+    sexagesimal printer on its domain -/
+theorem realCodec_printerOn (m : RMode) (p : Nat) (sd : ℚ → ℚ → ℚ) :
+    (realCodec m p sd).PrinterOn DegDom (roundSig m (sigDigits p)) degQ :=
   { rd_fmt := fun x => rd_fmtGen m p x
     fmt_q := fun x => fmtGen_roundSig m p x
     isZero_iff := fun x => by simp [realCodec]
@@ -105,16 +263,31 @@ theorem realCodec_printer (m : RMode) (p pd : Nat) (sd : ℚ → ℚ → ℚ) :
     latOut_latIn := fun x => by
       show x * piQ / 200 * 200 / piQ = x
       field_simp [piQ_ne]
-    rdDeg_fmt := fun x => rdDegStandIn_fmtGen m p x
+    rdDeg_fmt := fun x => rdDegReal_fmtGen m p x
     fmt_ne := fun x => fmtGen_ne_empty m p x
-    rdDeg_fmtDeg := fun x => rdDegStandIn_fmtDeg m pd x
-    fmtDeg_qd := fun x => fmtDegStandIn_q m pd x
+    rdDeg_fmtDeg := fun x hx => rdDegReal_fmtDegReal x hx
+    fmtDeg_qd := fun x hx => fmtDegReal_degQ x hx
     fromSec_toSec := fun x => by
       show x * (81 / 250) * (250 / 81) = x
       ring
     toSec_fromSec := fun x => by
       show x * (250 / 81) * (81 / 250) = x
       ring }
+
+/-- the law without a domain is FALSE for the real sexagesimal printer, whatever `qd`: the text of 2.4·10⁹ gon has
+    2 160 000 000 degrees, which `deg2gon` (`istream >> int`) refuses.  (A negative angle is not a counterexample to the
+    law as such — `gon2deg(·, 0, 4)` prints no sign, the text of −100 gon is read as +100 gon, and +100 prints the same
+    text — but there `qd` is not a quantisation; `DegDom` excludes both.) -/
+theorem realCodec_not_printer (m : RMode) (p : Nat) (sd : ℚ → ℚ → ℚ) (q qd : ℚ → ℚ) :
+    ¬ (realCodec m p sd).Printer q qd := by
+  intro P
+  have h1 := P.rdDeg_fmtDeg (2400000000 : ℚ) trivial
+  have e : (realCodec m p sd).rdDeg ((realCodec m p sd).fmtDeg (2400000000 : ℚ)) = none := by
+    show rdDegReal (fmtDegReal 2400000000) = none
+    unfold rdDegReal fmtDegReal
+    decide +kernel
+  rw [e] at h1
+  exact absurd h1 (by simp)
 
 end Gama.Export
 
@@ -123,6 +296,9 @@ open Gama.Dec
 
 instance (m : RMode) (P : Nat) : DecidablePred (fun x : ℚ => roundSig m P x = x) :=
   fun x => inferInstanceAs (Decidable (roundSig m P x = x))
+
+instance : DecidablePred (fun x : ℚ => DegDom x ∧ degQ x = x) :=
+  fun x => inferInstanceAs (Decidable (DegDom x ∧ degQ x = x))
 
 /-- a network over ℚ for the non-vacuity examples: en + left-handed is inconsistent (y, dy mirrored); coordinates with
     more digits than the printer keeps (1/3, 2/7, 1.23456789012), a constrained and an unused point, a vectors cluster
@@ -134,5 +310,18 @@ def qNet : Net ℚ :=
                ⟨"B", some (99996 / 100000, -5005 / 3), none, .constr, .free⟩,
                ⟨"C", some (6, 7), none, .unused, .unused⟩],
     clusters := [.vectors [⟨"A", "B", 31 / 3, -32 / 7, 1 / 1000000, 0, 0, ""⟩] ⟨3, 2, [11 / 3, 1, 2 / 7, 12, 3, 13]⟩] }
+
+/-- the same in degrees (`angles="360"`), with an `<obs>` cluster: a direction 123.45678912 gon (more digits than four
+    decimals of the second), a distance, an angle, a zenith angle whose seconds round up to 60 (carried), a full 4×4
+    covariance matrix; standard deviations and covariance rows of the angular observations go through seconds -/
+def qNetDeg : Net ℚ :=
+  { qNet with
+    par := { qNet.par with gons := false },
+    clusters := qNet.clusters ++
+      [.obs ⟨"A", [⟨.direction, "A", "B", "", 12345678912 / 100000000, 10 / 3, 0, 3 / 2, 0, ""⟩,
+                   ⟨.distance, "A", "B", "", 500005 / 1000, 5, 0, 0, 0, "e"⟩,
+                   ⟨.angle, "A", "B", "C", 2345678 / 10000, 20 / 7, 17 / 10, 0, 12 / 10, ""⟩,
+                   ⟨.zangle, "A", "B", "", 999999999999 / 10000000000, 4, 0, 0, 0, ""⟩]⟩
+         (some ⟨4, 3, [100 / 9, 1 / 7, 2 / 3, 1 / 11, 25, 3 / 7, 1 / 13, 400 / 49, 1 / 17, 16]⟩)] }
 
 end Gama.Export
